@@ -3,7 +3,7 @@
    Inverse-free statements: alpha2 is characterised by S alpha2 = y - m, X by S X = K*. Any field. *)
 From mathcomp Require Import all_ssreflect all_algebra.
 From TinyGP Require Import Base.Ops Base.LMat Model.QSMCore Model.QSMSolve Model.Noise Model.Dense Model.GP
-  Theory.MxRefine Theory.QSMDen Theory.QSMMatmul Theory.QSMTriInv Theory.Gauss Theory.GPThy.
+  Theory.MxRefine Theory.QSMDen Theory.QSMMatmul Theory.QSMTriInv Theory.QSMArith Theory.Gauss Theory.GPThy Theory.GPCondQSM.
 Set Implicit Arguments. Unset Strict Implicit. Unset Printing Implicit Defensive.
 Import GRing.Theory.
 Local Open Scope ring_scope.
@@ -46,3 +46,19 @@ Theorem C02_cond_cov_quasisep_dense (F : fieldType) sq lt nt (d : vec F) (l : tr
   = mx_of nt nt Kss + Nsm - (mx_of (tn l) nt Ks)^T *m X.
 Proof. exact: cond_cov_quasisep_dense. Qed.
 Print Assumptions C02_cond_cov_quasisep_dense.
+
+(* the structured branch of QuasisepSolver.condition (X_test absent, quasiseparable prediction kernel, diagonal or banded
+   predictive noise): M + N* - gram(inv(L) @ M), computed with quasiseparable arithmetic only, denotes
+   K* + N* - K*^T S^-1 K*  (qwfn n A: all parts of A have size n) *)
+Theorem C02_cond_cov_quasisep_qsm (F : fieldType) sq lt (d : vec F) (l : tri F) (Mk Nq R : qsm F) (Nstar : noise F)
+    (Sm X : 'M[F]_(tn l)) :
+  let n := tn l in
+  let s := MkQ n (Symm [::] l) d l in
+  (forall k, (k < n)%N -> nth 0 d k != 0) ->
+  den n (Lower d l) *m (den n (Lower d l))^T = Sm ->
+  qwfn n Mk -> nto_qsm (fops sq lt) Nstar = Some Nq -> qwfn n Nq ->
+  Sm *m X = den n Mk ->
+  quasisep_condition_qsm (fops sq lt) s Mk Nstar = Some R ->
+  den n R = den n Mk + den n Nq - (den n Mk)^T *m X.
+Proof. exact: cond_cov_quasisep_qsm. Qed.
+Print Assumptions C02_cond_cov_quasisep_qsm.
